@@ -55,6 +55,20 @@ U32Set == {<<0, 0>>, <<0, 9>>, <<0, 10>>, <<0, 65535>>, <<1, 0>>, <<1, 34463>>, 
 IntSet == {0, 1, -1, 9, -9, 10, -10, 99, 100, -100, 65535, 65536, -65536, 999999999, 1000000000, -1000000000,
            2147483647, -2147483647}
 
+\* time values: instants (unix seconds) x milliseconds x location offset in minutes (UTC, +10:00, -03:30, +05:45, -12:00)
+Instants == {0, 59, 86399, 86400, 951782399, 951782400, 951868799, 1078099199, 1709164800, 1709251199, 1735689599,
+             1735689600, 1759400000, 2147000000}
+Offsets  == {0, 600, -210, 345, -720}
+\* zone-qualified addresses: address x zone length; the zone is a prefix of ZoneChars.  With the 39 character address
+\* the text has 41, 44, 46, 47, 49, 60 characters.
+ZoneChars == <<"e","n","p","0","s","3","1","f","6","v","l","a","n","1","2","3","4","b","r","0","w","x","y","z">>
+ZoneLens  == {1, 4, 6, 7, 9, 20}
+ZoneAddrs == << <<254,128,17,17,34,34,51,51,68,68,85,85,102,102,119,119>>,      \* fe80:1111:2222:3333:4444:5555:6666:7777
+                <<254,128,0,0,0,0,0,0,0,0,0,0,0,0,0,1>>,                        \* fe80::1
+                <<255,2,0,0,0,0,0,0,0,0,0,0,0,0,0,251>>,                        \* ff02::fb
+                <<0,0,0,0,0,0,0,0,0,0,255,255,192,168,0,1>> >>                  \* ::ffff:192.168.0.1
+Zone(n) == SubSeq(ZoneChars, 1, n)
+
 DescSet ==
   (IF "ip6" \in Types THEN {Desc("ip6", l, v, 0) : l \in 0..255, v \in 0..(Variants - 1)} ELSE {}) \cup
   (IF "addr6" \in Types THEN {Desc("addr6", l, v, 0) : l \in 0..255, v \in 0..(Variants - 1)} ELSE {}) \cup
@@ -69,6 +83,8 @@ DescSet ==
   (IF "u32" \in Types THEN {Desc("u32", x[1], x[2], 0) : x \in U32Set} ELSE {}) \cup
   (IF "int" \in Types THEN {Desc("int", x, 0, 0) : x \in IntSet} ELSE {}) \cup
   (IF "bool" \in Types THEN {Desc("bool", x, 0, 0) : x \in {0, 1}} ELSE {}) \cup
+  (IF "time" \in Types THEN {Desc("time", u, ms, off) : u \in Instants, ms \in {0, 7, 999}, off \in Offsets} ELSE {}) \cup
+  (IF "addr6z" \in Types THEN {Desc("addr6z", k, zl, 0) : k \in 1..Len(ZoneAddrs), zl \in ZoneLens} ELSE {}) \cup
   (IF "bytes" \in Types THEN {Desc("bytes", x, 1, 0) : x \in 0..255} \cup {Desc("bytes", x, n, 0) : x \in {0, 171}, n \in {0, 2, 3, 7}} ELSE {})
 
 \* ------------------------------------------------------------------ descriptor -> value (sequence of integers)
@@ -81,6 +97,8 @@ Value(x) ==
                                             [] i = 4 -> (x.a * 7) % 256 [] i = 5 -> (x.a \div 16) [] OTHER -> (x.a * 16) % 256]
     [] x.t = "bytes" -> [i \in 1..x.b |-> (x.a + 17 * (i - 1)) % 256]
     [] x.t = "u32"  -> <<x.a, x.b>>
+    [] x.t = "time" -> <<x.a, x.b, x.c>>
+    [] x.t = "addr6z" -> ZoneAddrs[x.a]
     [] OTHER        -> <<x.a>>
 
 \* property-level value text
@@ -97,6 +115,8 @@ Text(x) ==
        [] x.t = "u16hex" -> Uint16HexText(v[1])
        [] x.t = "bool"   -> BoolText(v[1] = 1)
        [] x.t = "bytes"  -> ByteArrayText(v)
+       [] x.t = "time"   -> StampMilliText(v[1], v[2], v[3])
+       [] x.t = "addr6z" -> ZonedAddrText(v, Zone(x.b))
 
 IsV6(x) == x.t \in {"ip6", "ip6s"} /\ ~Is4In6(Value(x) \o <<>>)
 
@@ -119,7 +139,7 @@ Lemmas ==
         /\ (CountSub(txt, ":", ":") = 1) <=> (LongestRun(g) >= 2)
         /\ Len(MechIP6(g, 3)) <= 39
 
-Export == PrintT(ToJson([t |-> d.t, v |-> Value(d) \o <<>>, e |-> Join(Field(N, Text(d))),
+Export == PrintT(ToJson([t |-> d.t, z |-> IF d.t = "addr6z" THEN Join(Zone(d.b)) ELSE "", v |-> Value(d) \o <<>>, e |-> Join(Field(N, Text(d))),
                          m |-> Join(Field(N, MechText(d))), kf |-> KF(d)]))
 
 Init == d \in DescSet
